@@ -4,14 +4,15 @@
    String values, per-sample FORMAT Integer/Float series, both directions), NV.Bcf.Genotype
    (GT series), NV.Bcf.Strings (Character/String values and series), NV.Bcf.StringMap (the
    dictionaries built from header lines), NV.Bcf.Record (record framing and the site head).
-   The models describe the code AFTER the fix: commits 01..08 of this property (missing INFO
-   value, IDX in the header, GT padding, phase of missing alleles, all-missing Integer vector
-   series, lazy one-element vectors, checked allele arithmetic, end-of-vector/reserved floats),
-   including its error results, and are compared with the real writer/reader byte for byte by
+   The models describe the code at the repaired tree (all fix: commits of this property and of the
+   BCF decoder hardening: missing INFO value, IDX in the header, GT padding, phase of missing
+   alleles, all-missing series, lazy one-element vectors, checked allele arithmetic,
+   end-of-vector/reserved floats, decoder todo!()/unwrap panics turned into errors, IDX conflicts,
+   nested overflow lengths), including its error results, and are compared with the real writer/reader byte for byte by
    bin/check C10. *)
 From Coq Require Import ZArith NArith List Bool.
 From NV Require Import Bcf.Ints Bcf.IntsProofs Bcf.Typed Bcf.TypedProofs Bcf.VectorsProofs Bcf.Genotype Bcf.GenotypeProofs
-  Bcf.Strings Bcf.StringsProofs Bcf.StringMap Bcf.StringMapProofs Bcf.Record Bcf.RecordProofs Bcf.BlockProofs.
+  Bcf.Strings Bcf.StringsProofs Bcf.StringMap Bcf.StringMapProofs Bcf.Record Bcf.RecordProofs Bcf.BlockProofs Bcf.RecordTyped Bcf.NeverPanics.
 Import ListNotations.
 Open Scope Z_scope.
 
@@ -228,9 +229,11 @@ Proof. exact has_vector_false. Qed.
 Print Assumptions bcf_float_series_all_missing_is_error.
 
 (* ---------------------------------------------------------------- Character / String *)
-(* The typed string: every non-empty string of up to 2^31-1 bytes; the empty string is written
+(* The typed string: every non-empty well-formed UTF-8 string of up to 2^31-1 bytes (the reader
+   rejects anything else: Typed.utf8_valid mirrors str::from_utf8); the empty string is written
    as String(0), which IS the missing value (class string-special-chars). *)
-Theorem bcf_info_string_roundtrip : forall s, s <> [] -> Z.of_nat (length s) <= 2147483647 ->
+Theorem bcf_info_string_roundtrip : forall s, s <> [] -> utf8_valid s = true ->
+  Z.of_nat (length s) <= 2147483647 ->
   exists bs, enc_info_string s = Ok bs /\ dec_info_str bs = ROk (SStr s).
 Proof. exact info_str_roundtrip. Qed.
 Print Assumptions bcf_info_string_roundtrip.
@@ -240,7 +243,7 @@ Theorem bcf_info_string_empty_refuted :
 Proof. exact info_string_empty_refuted. Qed.
 Print Assumptions bcf_info_string_empty_refuted.
 
-Theorem bcf_info_char_roundtrip : forall c,
+Theorem bcf_info_char_roundtrip : forall c, (c < 128)%N ->
   exists bs, enc_info_char c = Ok bs /\ dec_info_char bs = ROk (SChar c).
 Proof. exact info_char_roundtrip. Qed.
 Print Assumptions bcf_info_char_roundtrip.
@@ -248,12 +251,14 @@ Print Assumptions bcf_info_char_roundtrip.
 (* vectors are stored comma-joined with '.' for a missing element: they round-trip when no
    element is '.' / ',' (characters), resp. empty, "." or holding a ',' (strings) *)
 Theorem bcf_info_char_vector_roundtrip : forall vs, vs <> [] -> chars_ok vs ->
+  utf8_valid (join comma (map char_piece vs)) = true ->
   Z.of_nat (length (join comma (map char_piece vs))) <= 2147483647 ->
   exists bs, enc_info_chars vs = Ok bs /\ dec_info_chars bs = ROk (SChars vs).
 Proof. exact info_chars_roundtrip. Qed.
 Print Assumptions bcf_info_char_vector_roundtrip.
 
 Theorem bcf_info_string_vector_roundtrip : forall vs, vs <> [] -> strs_ok vs ->
+  utf8_valid (join comma (map str_piece vs)) = true ->
   Z.of_nat (length (join comma (map str_piece vs))) <= 2147483647 ->
   exists bs, enc_info_strs vs = Ok bs /\ dec_info_strs bs = ROk (SStrs vs).
 Proof. exact info_strs_roundtrip. Qed.
@@ -278,7 +283,7 @@ Print Assumptions bcf_info_char_vector_special_refuted.
 
 (* per-sample series: one descriptor String(max_len), one NUL-padded cell per sample, "." for a
    missing sample (also when every sample is missing: fix 17).  Any number of samples, strings of
-   unequal length, the empty string included; fmt_str_ok = no NUL inside, length <= 2^31-1. *)
+   unequal length, the empty string included; fmt_str_ok = no NUL inside, well-formed UTF-8, length <= 2^31-1. *)
 Theorem bcf_string_series_roundtrip : forall vals,
   vals <> [] ->
   (forall s, In (Some s) vals -> fmt_str_ok s /\ s <> [dot]) ->
@@ -297,7 +302,7 @@ Proof. exact fmt_strings_no_sample_is_error. Qed.
 Print Assumptions bcf_string_series_no_sample_is_error.
 
 Theorem bcf_char_series_roundtrip : forall vals,
-  vals <> [] -> (forall c, In (Some c) vals -> c <> dot /\ c <> nul) ->
+  vals <> [] -> (forall c, In (Some c) vals -> c <> dot /\ c <> nul /\ (c < 128)%N) ->
   exists bs, enc_fmt_chars vals = Ok bs /\ dec_fmt_chars (length vals) bs = ROk vals.
 Proof. exact fmt_chars_roundtrip. Qed.
 Print Assumptions bcf_char_series_roundtrip.
@@ -307,6 +312,7 @@ Print Assumptions bcf_char_series_roundtrip.
 Theorem bcf_char_vector_series_roundtrip : forall vals,
   vals <> [] ->
   (forall cs, In (Some cs) vals -> cs <> [] /\ chars_ok cs /\
+     utf8_valid (join comma (map char_piece cs)) = true /\
      Z.of_nat (length (join comma (map char_piece cs))) <= 2147483647) ->
   exists bs, enc_fmt_char_arrays vals = Ok bs /\
              dec_fmt_char_arrays (length vals) bs = ROk (map char_arr_back vals).
@@ -316,6 +322,7 @@ Print Assumptions bcf_char_vector_series_roundtrip.
 Theorem bcf_string_vector_series_roundtrip : forall vals,
   vals <> [] ->
   (forall vs, In (Some vs) vals -> vs <> [] /\ strs_ok vs /\
+     utf8_valid (join comma (map str_piece vs)) = true /\
      Z.of_nat (length (join comma (map str_piece vs))) <= 2147483647) ->
   exists bs, enc_fmt_str_arrays vals = Ok bs /\
              dec_fmt_str_arrays (length vals) bs = ROk (map norm_strs vals).
@@ -547,6 +554,66 @@ Theorem c10_record_roundtrip : forall strings contigs s infos fmts (has_rows : b
 Proof. exact record_full_roundtrip. Qed.
 Print Assumptions c10_record_roundtrip.
 
+(* ---------------------------------------------------------------- totality (for C15) *)
+(* At the repaired tree no decoder reaches a panic: for EVERY byte string and every sample count
+   the models return a value or an error.  (The models are compared with the real decoders on
+   hostile value bytes by the `hx` cases.) *)
+Theorem bcf_info_int_never_panics : forall array bs, dec_info_int_gen array bs <> RPanic.
+Proof. exact dec_info_int_gen_np. Qed.
+Print Assumptions bcf_info_int_never_panics.
+
+Theorem bcf_info_float_never_panics : forall array bs, dec_info_float_gen array bs <> RPanic.
+Proof. exact dec_info_float_gen_np. Qed.
+Print Assumptions bcf_info_float_never_panics.
+
+Theorem bcf_info_string_never_panics : forall bs,
+  dec_info_string bs <> RPanic /\ dec_info_str bs <> RPanic /\ dec_info_strs bs <> RPanic /\
+  dec_info_char bs <> RPanic /\ dec_info_chars bs <> RPanic.
+Proof.
+  intros bs. exact (conj (dec_info_string_np bs) (conj (dec_info_str_np bs) (conj (dec_info_strs_np bs)
+    (conj (dec_info_char_np bs) (dec_info_chars_np bs))))).
+Qed.
+Print Assumptions bcf_info_string_never_panics.
+
+Theorem bcf_format_int_never_panics : forall scalar ns bs, dec_fmt_int_gen scalar ns bs <> RPanic.
+Proof. exact dec_fmt_int_gen_np. Qed.
+Print Assumptions bcf_format_int_never_panics.
+
+Theorem bcf_format_float_never_panics : forall scalar ns bs, dec_fmt_float_gen scalar ns bs <> RPanic.
+Proof. exact dec_fmt_float_gen_np. Qed.
+Print Assumptions bcf_format_float_never_panics.
+
+Theorem bcf_format_string_never_panics : forall ns bs,
+  dec_fmt_strings ns bs <> RPanic /\ dec_fmt_str_arrays ns bs <> RPanic /\
+  dec_fmt_chars ns bs <> RPanic /\ dec_fmt_char_arrays ns bs <> RPanic.
+Proof.
+  intros ns bs. exact (conj (dec_fmt_strings_np ns bs) (conj (dec_fmt_str_arrays_np ns bs)
+    (conj (dec_fmt_chars_np ns bs) (dec_fmt_char_arrays_np ns bs)))).
+Qed.
+Print Assumptions bcf_format_string_never_panics.
+
+Theorem bcf_genotype_never_panics : forall ns bs, dec_gt ns bs <> RPanic.
+Proof. exact dec_gt_np. Qed.
+Print Assumptions bcf_genotype_never_panics.
+
+(* read_record_buf as a whole (NV.Bcf.RecordTyped.dec_record_typed: frame, site head, the walks
+   over both blocks, the header's Number/Type choosing each value decoder, GT, the per-sample rows,
+   the header sample count): on EVERY byte string, for every dictionary, every header typing of the
+   keys and every header sample count, a record or an error, never a panic.  The model is compared
+   with read_record_buf on mutated records by the `hxr` cases. *)
+Theorem bcf_dec_record_never_panics : forall strings contigs ik fk hs bs,
+  dec_record_typed strings contigs ik fk hs bs <> RPanic.
+Proof. exact dec_record_typed_np. Qed.
+Print Assumptions bcf_dec_record_never_panics.
+
+Theorem bcf_info_field_never_panics : forall k vb, dec_info_kind k vb <> RPanic.
+Proof. exact dec_info_kind_np. Qed.
+Print Assumptions bcf_info_field_never_panics.
+
+Theorem bcf_format_field_never_panics : forall k ns vb, dec_fmt_kind k ns vb <> RPanic.
+Proof. exact dec_fmt_kind_np. Qed.
+Print Assumptions bcf_format_field_never_panics.
+
 (* c10_partial: the composition for the modelled kinds.  Partial: there is no single Coq datatype
    of typed records (the dispatch on the header's Number/Type that picks a field's value decoder
    is per-field: the value theorems; the walk itself is c10_record_roundtrip); the lazy
@@ -579,10 +646,12 @@ Theorem c10_partial :
      Z.of_nat (gt_max_len (map (map code) gs)) <= 2147483647 ->
      exists bs, enc_gt gs = Ok bs /\ dec_gt (length gs) bs = ROk (map Some gs)) /\
   (forall vs, vs <> [] -> strs_ok vs ->
+     utf8_valid (join comma (map str_piece vs)) = true ->
      Z.of_nat (length (join comma (map str_piece vs))) <= 2147483647 ->
      exists bs, enc_info_strs vs = Ok bs /\ dec_info_strs bs = ROk (SStrs vs)) /\
   (forall vals, vals <> [] ->
      (forall vs, In (Some vs) vals -> vs <> [] /\ strs_ok vs /\
+        utf8_valid (join comma (map str_piece vs)) = true /\
         Z.of_nat (length (join comma (map str_piece vs))) <= 2147483647) ->
      exists bs, enc_fmt_str_arrays vals = Ok bs /\
                 dec_fmt_str_arrays (length vals) bs = ROk (map norm_strs vals)) /\
